@@ -49,10 +49,11 @@ class _SkipGuard:
             return self.skip_result
 
 
-def pmap(fn, items, repo_root, workers=16, chunksize=None, job_timeout=None, on_timeout=None, skip_result=()):
+def pmap(fn, items, repo_root, workers=16, chunksize=None, job_timeout=None, on_timeout=None, skip_result=(), fresh=False):
     """job_timeout / on_timeout: every job runs under its own alarm, so a hang of the code under check ends as a reported
     failure of that job (never as a check that has to be killed).  After TIMEOUT_CAP counted timeouts the remaining jobs of
-    this map are skipped (skip_result; default: an empty list of failures)."""
+    this map are skipped (skip_result; default: an empty list of failures).  fresh=True: every job runs in a worker process
+    of its own, forked from the driver (which never imports the code under check): no state left by an earlier job."""
     if not items:
         return []
     if job_timeout is not None:
@@ -62,6 +63,9 @@ def pmap(fn, items, repo_root, workers=16, chunksize=None, job_timeout=None, on_
     ctx = mp.get_context('fork')
     global _timeouts
     _timeouts = ctx.Value('i', 0)       # shared by the forked workers of this map
+    if fresh:
+        with ctx.Pool(workers, initializer=_init, initargs=(repo_root,), maxtasksperchild=1) as pool:
+            return pool.map(fn, items, chunksize=1)
     with ctx.Pool(workers, initializer=_init, initargs=(repo_root,)) as pool:
         return pool.map(fn, items, chunksize=chunksize or max(1, len(items) // (workers * 4)))
 
